@@ -28,7 +28,7 @@ From V Require Import Model.ZMap Model.Quorum Model.Voting Model.VotingRef Model
   Proofs.NoFail Proofs.AgreementU Proofs.FameInv Proofs.FamousSet Proofs.DecidedFlag Proofs.RoundReceived
   Proofs.BlockAgree Proofs.AgreementWitness Proofs.WindowWitness
   Model.Window Proofs.WindowStable Proofs.GapWindow Proofs.RoundAgreeD Proofs.ShrinkWitness
-  Model.VotingRefD Proofs.VotingProofsD Proofs.RoundOrder Proofs.CInvRunD Proofs.ViewOk Proofs.ViewOkD Proofs.SameHistoryD Proofs.AgreementD Proofs.FameInvD Proofs.LateWitnessD Proofs.FamousSetD Proofs.DecidedFlagD Proofs.RoundReceived Proofs.RoundReceivedD.
+  Model.VotingRefD Proofs.VotingProofsD Proofs.RoundOrder Proofs.CInvRunD Proofs.ViewOk Proofs.ViewOkD Proofs.SameHistoryD Proofs.AgreementD Proofs.FameInvD Proofs.LateWitnessD Proofs.FamousSetD Proofs.DecidedFlagD Proofs.RoundReceived Proofs.RoundReceivedD Proofs.Undetermined Proofs.UndeterminedD.
 Import ListNotations.
 Open Scope Z_scope.
 
@@ -667,6 +667,23 @@ Theorem C01_round_received_agreement_dynamic_fork_free_universe :
   ev_rr e1 = Some i1 -> ev_rr e2 = Some i2 -> i1 = i2.
 Proof. exact rr_agreement_gap_universe. Qed.
 Print Assumptions C01_round_received_agreement_dynamic_fork_free_universe.
+
+(* DecideRoundReceived is COMPLETE under dynamic membership: in a node that respects the distance bound, a stored event
+   x without round-received is in the undetermined list, and there is a round j0 above its round whose flag is not set
+   (and which is not fully decided), while every round strictly between is flagged decided and does not receive x
+   ([ustopD (psat st) st x]): nothing that could be received is left behind. *)
+Theorem C01_round_received_complete_dynamic : forall genesis all self_ oracle_ ops x,
+  self_ <> -1 -> ids_determine all -> Forall (hop_ok all) ops ->
+  gap_runb (init_hg self_ genesis oracle_) ops = true ->
+  let st := hrun (init_hg self_ genesis oracle_) ops in
+  failed st = false -> get_event st x <> None -> rr_of st x = None ->
+  In x (undetermined st) /\ ustopD (psat st) st x.
+Proof.
+  exact (fun g all s o ops x Hs ID H B F Hx Hr =>
+    conj (uD_un _ _ (hrun_uinvD s g o all ops Hs ID H B F) x Hx Hr)
+         (uD_u _ _ (hrun_uinvD s g o all ops Hs ID H B F) x Hx Hr)).
+Qed.
+Print Assumptions C01_round_received_complete_dynamic.
 
 (* REGRESSION WITNESS for fix 05eda0b (known finding C01-fame-threshold-after-shrink): A SECOND FORK UNDER
    DYNAMIC MEMBERSHIP, INDEPENDENT OF THE WINDOW, in the code before the fix.  DecideFame decided at a round-j witness
